@@ -13,7 +13,8 @@ RULE = ("random operation sequences (5..50 operations from {replace, grow, resam
         "overwritten by a worse value (stale bit), and get_final_results must return the better of saved point and incumbent (finite over "
         "NaN, ties to the incumbent). The per-slot relations also run in situ at every iteration of solver runs with the recorder as "
         "ground truth. Non-trivial = sequence reaching >= 4 distinct operation kinds; distinct by sequence index; evidence counts "
-        "operation bigrams and abstract states (growing/full x stale x saved x NaN-present)")
+        "operation bigrams and abstract states (growing/full x stale x saved x NaN-present)"
+        ' Second session: regulariser with extra arguments (argsh) and models in scaled variables (scaling_changes) in the sequences.')
 ASSUMPTIONS = ["'unless the incumbent itself was overwritten by a worse point' is read as weakly as the code legitimately needs after a soft "
                "restart: the stale bit is set when an operation writes a worse value (or NaN) into the incumbent's own slot and cleared when "
                "the incumbent is again a minimiser"]
